@@ -115,7 +115,7 @@ def arm_change_contracts(cls, maps, neutral, extra_modifies=(), others=True, pro
 
 
 def predict_contracts(module, cls, E1, EM, stream1, streamM, modifies=('self.rng.rng.state',), requires=('INV',),
-                      props_pe='C01 C08 C09 C10', props_p='C08 C09 C10'):
+                      props_pe='C01 C08 C09 C10', props_p='C08 C09 C10', extra_ensures=()):
     """predict_expectations / predict of a context-free policy.  E1 / EM: expectation reported for arm `a` with
     no contexts or one row / for row j of several rows, as a term over the entry state; stream1 / streamM: the
     stream state afterwards."""
@@ -128,7 +128,8 @@ def predict_contracts(module, cls, E1, EM, stream1, streamM, modifies=('self.rng
                 '[C01,C09,values] (forall_arm(lambda a: implies(mem(self.arms, a), val(result, a) == %s))) '
                 'if is_dict(result) else forall_int(lambda j: implies(0 <= j and j < rows(contexts), '
                 'forall_arm(lambda a: implies(mem(self.arms, a), val(item(result, j), a) == %s))))' % (E1, EM),
-                '[C10,stream] rngstate(self.rng) == ((%s) if is_dict(result) else (%s))' % (stream1, streamM)])
+                '[C10,stream] rngstate(self.rng) == ((%s) if is_dict(result) else (%s))' % (stream1, streamM)]
+       + list(extra_ensures))
     fn(q + '.predict', props=props_p, params=PRED_PARAMS, result=pred_result,
        requires=list(requires) + ['slen(self.arms) > 0'], modifies=list(modifies),
        ensures=['[C08,shape] is_list(result) == (not %s)' % SINGLE,
@@ -138,7 +139,8 @@ def predict_contracts(module, cls, E1, EM, stream1, streamM, modifies=('self.rng
                 'at(result, j) == argmax_over(self.arms, lambda a: %s))))' % (E1, EM),
                 '[C08,member] mem(self.arms, result) if not is_list(result) else '
                 'forall_int(lambda j: implies(0 <= j and j < rows(contexts), mem(self.arms, at(result, j))))',
-                '[C10,stream] rngstate(self.rng) == ((%s) if not is_list(result) else (%s))' % (stream1, streamM)])
+                '[C10,stream] rngstate(self.rng) == ((%s) if not is_list(result) else (%s))' % (stream1, streamM)]
+       + list(extra_ensures))
 
 
 # ------------------------------------------------------------------------------------- warm start (C13)
